@@ -42,6 +42,7 @@ type WireProg struct {
 	Reads  map[string]bool // top-level receiver fields mentioned (read)
 	Writes map[string]bool // top-level receiver fields assigned / address-taken / decoded into
 	Opaque []string
+	Zeroed []string // access paths overwritten with a zero value before being encoded (signature stripping)
 }
 
 type wireWalker struct {
@@ -478,6 +479,11 @@ func (w *wireWalker) stmt(s ast.Stmt) []Op {
 		var ops []Op
 		if len(s.Lhs) == len(s.Rhs) {
 			for i := range s.Rhs {
+				if isZeroExpr(s.Rhs[i]) {
+					if _, plain := s.Lhs[i].(*ast.Ident); !plain {
+						w.prog.Zeroed = append(w.prog.Zeroed, w.pathOf(s.Lhs[i]))
+					}
+				}
 				// local alias of a path: v := x.F / sp := *res
 				if id, ok := s.Lhs[i].(*ast.Ident); ok && !w.involvesCoder(s.Rhs[i]) {
 					if o := w.info.Defs[id]; o != nil {
@@ -869,6 +875,10 @@ func (w *wireWalker) pathOf(e ast.Expr) string {
 	if tv, ok := w.info.Types[e]; ok && tv.Value != nil {
 		return tv.Value.ExactString()
 	}
+	switch e.(type) {
+	case *ast.CallExpr, *ast.BinaryExpr, *ast.UnaryExpr:
+		return "<" + w.canon(e) + ">"
+	}
 	return "<" + types.ExprString(e) + ">"
 }
 
@@ -937,7 +947,55 @@ func (w *wireWalker) expr(e ast.Expr, lhs string) []Op {
 var encPrims = map[string]string{"WriteUint8": "u8", "WriteUint64": "u64", "WriteBool": "bool", "WriteTime": "time", "WriteBytes": "bytes", "WriteString": "string"}
 var decPrims = map[string]string{"ReadUint8": "u8", "ReadUint64": "u64", "ReadBool": "bool", "ReadTime": "time", "ReadBytes": "bytes", "ReadString": "string"}
 
+func isZeroExpr(e ast.Expr) bool {
+	switch x := stripParens(e).(type) {
+	case *ast.Ident:
+		return x.Name == "nil"
+	case *ast.CompositeLit:
+		return len(x.Elts) == 0
+	}
+	return false
+}
+
+// isZeroer: the function body stores a zero composite through a pointer (nilSigs-like helpers).
+func isZeroer(body *ast.BlockStmt) bool {
+	found := false
+	ast.Inspect(body, func(n ast.Node) bool {
+		if as, ok := n.(*ast.AssignStmt); ok && len(as.Lhs) == 1 && len(as.Rhs) == 1 {
+			if _, ok := stripParens(as.Lhs[0]).(*ast.StarExpr); ok && isZeroExpr(as.Rhs[0]) {
+				found = true
+			}
+		}
+		return !found
+	})
+	return found
+}
+
+func (w *wireWalker) noteZeroerCall(c *ast.CallExpr) {
+	var body *ast.BlockStmt
+	if id, ok := stripParens(c.Fun).(*ast.Ident); ok {
+		if o := w.info.Uses[id]; o != nil {
+			if fl := w.closures[o]; fl != nil {
+				body = fl.Body
+			} else if fn, ok := o.(*types.Func); ok {
+				if fd, _ := w.p.Decl(fn); fd != nil {
+					body = fd.Body
+				}
+			}
+		}
+	}
+	if body == nil || !isZeroer(body) {
+		return
+	}
+	for _, a := range c.Args {
+		if u, ok := stripParens(a).(*ast.UnaryExpr); ok && u.Op == token.AND {
+			w.prog.Zeroed = append(w.prog.Zeroed, w.pathOf(u.X))
+		}
+	}
+}
+
 func (w *wireWalker) call(c *ast.CallExpr, lhs string) []Op {
+	w.noteZeroerCall(c)
 	// conversions: descend
 	if w.isConversion(c) {
 		var ops []Op
